@@ -1,4 +1,5 @@
 import Girc.Proofs.SimMain
+import Girc.Proofs.SimWireAux
 /-
   C04 at the wire level: the received LINES are parsed (the parser of C02), handled one at a time,
   locally injected events are processed after the event that injected them (Model/Run.lean), and as long
@@ -6,15 +7,93 @@ import Girc.Proofs.SimMain
 -/
 namespace Girc.Proofs.SimWire
 open Girc Girc.Model Girc.Spec
+open Girc.Proofs.InvHandlers Girc.Proofs.SimWireAux
 
 /-- Everything the library injects into its own receive queue is a local ERROR. -/
 theorem injects_are_errors (cfg : Cfg) (cs : CState) (e : Event) (time idle : Bytes) (cs' : CState) (outs : List Out)
     (h : handleEvent cfg cs e time idle = .ok (cs', outs)) :
-    ∀ x, Out.inject x ∈ outs → x.command = cERROR := by sorry
+    ∀ x, Out.inject x ∈ outs → x.command = cERROR :=
+  handleEvent_injErr cfg cs e time idle cs' outs h
 
 /-- Once a run has ended it stays ended. -/
 theorem stepLine_ended (cfg : Cfg) (r r' : Run) (line : Bytes) (h : stepLine cfg r line = .ok r')
-    (he : r.ended ≠ .running) : r' = r := by sorry
+    (he : r.ended ≠ .running) : r' = r := by
+  unfold stepLine at h
+  rw [if_pos he] at h
+  injection h with h
+  exact h.symm
+
+/-- An ended run is returned unchanged by the rest of the history. -/
+theorem runLines_ended (cfg : Cfg) (lines : List Bytes) : ∀ (r r' : Run), runLines cfg r lines = .ok r' →
+    r.ended ≠ .running → r' = r := by
+  induction lines with
+  | nil =>
+    intro r r' h _
+    injection h with h
+    exact h.symm
+  | cons line rest ih =>
+    intro r r' h he
+    unfold runLines at h
+    rw [List.foldlM_cons] at h
+    obtain ⟨r1, h1, h2⟩ := bind_ok_inv h
+    have e1 : r1 = r := stepLine_ended cfg r r1 line h1 he
+    rw [e1] at h2
+    exact ih r r' h2 he
+
+/-- One parsed, conformant line that leaves the run running keeps the simulation relation. -/
+theorem stepLine_sim (cfg : Cfg) (hT : cfg.disableTracking = false) (r0 r1 : Run) (ref : Ref) (line : Bytes) (e : Event)
+    (hpe : parseEvent line = some e) (hs : Sim r0.cs.st ref) (hc : ref.conformant cfg e = true)
+    (h : stepLine cfg r0 line = .ok r1) (hr : r1.ended = .running) : Sim r1.cs.st (ref.step cfg e) := by
+  unfold stepLine at h
+  split at h
+  · next he =>
+    injection h with h
+    rw [h] at he
+    exact absurd hr he
+  · rw [hpe] at h
+    obtain ⟨_, outs, ho⟩ := stepAll_single cfg (fun _ => true) 6 r0 r1 e h hr
+    obtain ⟨cs', outs', ho', hsim⟩ := SimMain.sim_handleEvent cfg hT e [] [] hs hc
+    rw [ho] at ho'
+    injection ho' with ho'
+    injection ho' with h1 _
+    rw [h1]
+    exact hsim
+
+theorem runLines_sim (cfg : Cfg) (hT : cfg.disableTracking = false) (lines : List Bytes) :
+    ∀ (es : List Event) (r0 : Run) (ref : Ref), lines.map parseEvent = es.map some → Sim r0.cs.st ref →
+      conformantHistory cfg ref es = true → ∀ r, runLines cfg r0 lines = .ok r → r.ended = .running →
+      Sim r.cs.st (es.foldl (Ref.step cfg) ref) := by
+  induction lines with
+  | nil =>
+    intro es r0 ref hp hs _ r hr _
+    cases es with
+    | nil =>
+      injection hr with hr
+      rw [← hr]
+      exact hs
+    | cons e es' => cases hp
+  | cons line rest ih =>
+    intro es r0 ref hp hs hc r hr hrun
+    cases es with
+    | nil => cases hp
+    | cons e es' =>
+      rw [List.map_cons, List.map_cons] at hp
+      injection hp with hpe hp'
+      unfold conformantHistory at hc
+      rw [Bool.and_eq_true] at hc
+      unfold runLines at hr
+      rw [List.foldlM_cons] at hr
+      obtain ⟨r1, h1, hr2⟩ := bind_ok_inv hr
+      have hr1 : r1.ended = .running := by
+        apply Classical.byContradiction
+        intro hne
+        have := runLines_ended cfg rest r1 r hr2 hne
+        rw [this] at hrun
+        exact hne hrun
+      have hs1 := stepLine_sim cfg hT r0 r1 ref line e hpe hs hc.1 h1 hr1
+      rw [List.foldl_cons]
+      exact ih es' r1 (ref.step cfg e) hp' hs1 hc.2 r hr2 hrun
+
 
 /-- Wire-level refinement: for every history of lines that parse to a conformant history of events, if
     the run has not been ended by anything (no ERROR, no parse error, no requested close), what the
@@ -22,6 +101,7 @@ theorem stepLine_ended (cfg : Cfg) (r r' : Run) (line : Bytes) (h : stepLine cfg
 theorem refinement_wire (cfg : Cfg) (hT : cfg.disableTracking = false) (lines : List Bytes) (es : List Event)
     (hp : lines.map parseEvent = es.map some) (hc : conformantHistory cfg {} es = true)
     (r : Run) (hr : runLines cfg {} lines = .ok r) (hrun : r.ended = .running) :
-    observe r.cs.st = (Ref.run cfg es).observe := by sorry
+    observe r.cs.st = (Ref.run cfg es).observe :=
+  SimBase.observe_eq (runLines_sim cfg hT lines es {} {} hp SimBase.sim_init hc r hr hrun)
 
 end Girc.Proofs.SimWire
